@@ -11,8 +11,8 @@ No `del`, no statement after return/raise/break/continue in the same block.
 Streams
   impl   : the skeletons rendered into one module per batch and checked by pyanalyze: per use the literals in the
            reveal_type text plus undefined_name / possibly_undefined_name
-  model  : lake env lean --run Driver/C09.lean: Pya.Scope (model of FunctionScope + the visitor's control flow),
-           Pya.Flow strict/liberal (spec), D-classes
+  model  : lake env lean --run Driver/C09.lean: Pya.C09 (Core/Scope.lean: model of FunctionScope + the visitor's control flow),
+           Spec/Flow.lean strict/liberal (spec), D-classes
   cfg    : an independent Python CFG reaching-definitions analysis in both modes (mirrors the Lean spec)
   exec   : the skeleton really executed under CPython, opaque conditions driven by all bit strings of length NBITS
 Correspondence: impl == model (per use: set of literals, unbound marker, diagnostic code), also on a separate stream
@@ -27,6 +27,7 @@ from harness.common import lean, pya
 
 PROP = "C09"
 LEAN_PROP = "PyaModel.Props.C09"
+NAMESPACE = "Pya.C09"
 LEAN_TARGETS = ["PyaModel.Spec.Flow", "PyaModel.Core.Scope"]
 ANCHORS = [
     ("pyanalyze/stacked_scopes.py", "FunctionScope.set"),
@@ -846,7 +847,7 @@ def _fmt(s):
 
 
 PRIORITY = ["jumpThroughFinally", "jumpOutOfFinally", "loopJumpInSuppressing", "suppressingInFinally", "loopElse",
-            "secondVisitSeed", "nestedLoopJump"]
+            "secondVisitSeed", "loopBreak", "nestedLoopJump"]
 
 
 def pick_class(dcls):
